@@ -1,0 +1,46 @@
+//go:build verif
+
+package line
+
+// Contracts for govc (contract-based deductive verification, see /verif/DESIGN.md).
+// Comments only; compiled only with the build tag `verif`.
+
+//@ arith int
+//@ property C14
+//@ assumption line: the callee of a call (user code) may use the Line's public API and anything else, but cannot write the unexported fields of Line and AsyncCtx
+//
+//@ opaque callres(ctx context.Context, req interface{}) interface{}
+//@ opaque callerr(ctx context.Context, req interface{}) error
+//@ pure lwfl(c *Line) bool = c != nil && c.q != nil && c.q.reqList != nil && !held(c.q.lock) && errsOK() && pipe.ErrQueueFull != nil && pipe.ErrQueueClosed != nil
+//
+//@ lemma enqueued_by_addCallCtx(item interface{})
+//@   trusted the queue of a Line is unexported and addCallCtx is its only producer: every item is a non-nil *AsyncCtx
+//@   ensures tag(item) == tagof(*AsyncCtx) ==> *AsyncCtx(item) != nil
+//
+//@ func newAsyncCtx
+//@   ensures result != nil && isfresh(result) && result.ctx == ctx && result.call == call && result.param == param
+//@   modifies region($alloc)
+//
+//@ func AsyncCtx.SetR
+//@   trusted channel send on the request's own 1-buffered result channel (R() receives it); the contract only records whose result is delivered
+//@   requires #own err == callerr(m.ctx, m.param) && (err == nil ==> r == callres(m.ctx, m.param)) && (err != nil ==> r == nil)
+//@   modifies
+//
+//@ func Line.addCallCtx
+//@   requires lwfl(c) && callCtx != nil
+//@   ensures #request result0 != nil && isfresh(result0) && result0.ctx == ctx && result0.call == callCtx.Call && result0.param == callCtx.Param
+//@   ensures #queued result1 == nil ==> forall e *list.Element :: { c.q.reqList.lmem[e] } c.q.reqList.lmem[e] ==> (cs(c.q.reqList.lmem[e]) || e.Value == any(result0))
+//@   ensures #refused result1 != nil ==> c.q.reqList.lmem == cs(c.q.reqList.lmem)
+//@   modifies q.Q.closed, list.List.lmem, list.List.lcnt, list.Element.lrk, list.Element.Value, region($alloc)
+//
+//@ func funcval ac.call
+//@   trusted user callback
+//@   ensures rsp == callres(ctx, req) && err == callerr(ctx, req)
+//@   modifies q.Q.closed, list.List.lmem, list.List.lcnt, list.Element.lrk, list.Element.Value, region($alloc)
+//
+//@ func Line.popLoop
+//@   requires lwfl(c)
+//@   aftercall PopAnyway use enqueued_by_addCallCtx(result)
+//@   modifies q.Q.closed, list.List.lmem, list.List.lcnt, list.Element.lrk, list.Element.Value, region($alloc)
+//@   loop 1
+//@     invariant lwfl(c)
